@@ -351,7 +351,8 @@ def make_patch(asm, constraints=None, get_asm=None):
         def get_asm(self, ctx, *regs):
             if get_asm is not None:
                 return get_asm(ctx, *regs)
-            return asm
+            # the scratch registers the patch was given show in its bytes
+            return asm + "".join("\nmovq %%%s, %%%s" % (format(r), format(r)) for r in getattr(ctx, "scratch_registers", []))
 
     return P()
 
